@@ -1176,12 +1176,38 @@ func (m *Model) RunErrSameFile(s *Sink, rule string) {
 			n++
 			key := fmt.Sprintf("%s|error #%d: line and path are of the same file", fnKey(fn), n)
 			lv := resolve(c.Call.Args[0])
-			root := rootParam(lv, 0)
-			if root != nil {
-				if r2, isP := resolve(root).(*ssa.Parameter); isP {
-					root = r2
+			// the parameter of fn the line's node is reached from, through the parameters of the helpers on the way
+			var rootIn func(v ssa.Value, d int) *ssa.Parameter
+			rootIn = func(v ssa.Value, d int) *ssa.Parameter {
+				r := rootParam(v, 0)
+				if r == nil || r.Parent() == fn || d > 3 {
+					return r
 				}
+				h := r.Parent()
+				idx := -1
+				for i, q := range h.Params {
+					if q == r {
+						idx = i
+					}
+				}
+				node := m.CG.Nodes[h]
+				if idx < 0 || node == nil || len(node.In) == 0 {
+					return nil
+				}
+				var only *ssa.Parameter
+				for _, e := range node.In {
+					if e.Site == nil || e.Site.Common().StaticCallee() != h || idx >= len(e.Site.Common().Args) {
+						return nil
+					}
+					p := rootIn(e.Site.Common().Args[idx], d+1)
+					if p == nil || (only != nil && p != only) {
+						return nil
+					}
+					only = p
+				}
+				return only
 			}
+			root := rootIn(lv, 0)
 			switch {
 			case root == other:
 				s.Violation(rule, key, m.InstrPos(c), "%s builds an error with the path it was given for its own file and the line %s, which is a line of the other program (%s): the error names a line of one file and the path of another", fnKey(fn), valueDesc(lv), other.Name())
